@@ -102,7 +102,7 @@ Proof.
   rewrite (goja_to_prop_eq d Hinv H2). reflexivity.
 Qed.
 
-Lemma define_eq_partial : forall d r cur ext,
+Lemma define_eq_partial : forall d (r : bool) cur ext,
   desc_invalid d = false -> (if r then f6_region d cur else false) = false ->
   goja_define d r cur ext = spec_define d r cur ext.
 Proof.
@@ -209,7 +209,7 @@ Proof.
         destruct (N.eqb x k) eqn:E; simpl; [|rewrite andb_true_r; reflexivity].
         apply N.eqb_eq in E. subst x. exfalso. apply mem_false_In in Hk. apply Hk.
         change k with (fst (k, q)). apply in_map. assumption. }
-      rewrite E. destruct (forallb _ r); [|reflexivity].
+      rewrite E. clear E. destruct (forallb (fun kp => mem (fst kp) u || (ext && p_conf (snd kp))) r); [|reflexivity].
       f_equal. unfold diff. rewrite filter_filter. apply filter_ext_in. intros x _.
       simpl. rewrite negb_orb. reflexivity.
     + destruct ext; simpl; [|reflexivity]. destruct (p_conf p); simpl; [|reflexivity].
@@ -232,11 +232,11 @@ Proof.
     + rewrite andb_false_r. reflexivity.
     + destruct (nodupb ks) eqn:Nd; simpl; [|rewrite andb_false_r; reflexivity].
       destruct (mem k ks) eqn:Mk; simpl.
-      * assert (forallb (fun k0 => negb (N.eqb k0 k || mem k0 seen)) ks = false) as ->; [|reflexivity].
+      * assert (forallb (fun k0 : key => negb (N.eqb k0 k || mem k0 seen)) ks = false) as ->; [|reflexivity].
         clear -Mk. induction ks; simpl in *; [discriminate|].
         rewrite (N.eqb_sym a k). destruct (N.eqb k a); simpl; [reflexivity|]. simpl in Mk.
         rewrite IHks by assumption. apply andb_false_r.
-      * assert (forallb (fun k0 => negb (N.eqb k0 k || mem k0 seen)) ks = forallb (fun k0 => negb (mem k0 seen)) ks) as ->.
+      * assert (forallb (fun k0 : key => negb (N.eqb k0 k || mem k0 seen)) ks = forallb (fun k0 : key => negb (mem k0 seen)) ks) as ->.
         { apply forallb_ext_in. intros x Hx. destruct (N.eqb x k) eqn:E; [|reflexivity].
           apply N.eqb_eq in E. subst x. apply mem_In in Hx. congruence. }
         destruct (forallb _ ks); reflexivity.
@@ -347,10 +347,10 @@ Proof.
     rewrite E3. destruct (forallb (fun k => mem k u) (conf_keys ps)); simpl; [|reflexivity].
     assert (E4 : (match diff (diff u (nonconf_keys ps)) (conf_keys ps) with [] => true | _ => false end)
                  = forallb (fun x => mem x (map fst ps)) u).
-    { unfold diff at 1 2. rewrite filter_filter.
-      transitivity (match diff u (map fst ps) with [] => true | _ => false end).
-      - unfold diff. f_equal. apply filter_ext_in. intros x _. rewrite keys_split_mem, negb_orb. reflexivity.
-      - apply diff_nil_forallb. }
+    { unfold diff at 1 2. rewrite filter_filter. rewrite <- diff_nil_forallb. unfold diff.
+      rewrite (filter_ext_in (fun x : key => negb (mem x (nonconf_keys ps)) && negb (mem x (conf_keys ps)))
+                             (fun x : key => negb (mem x (map fst ps))) u); [reflexivity|].
+      intros x _. rewrite keys_split_mem, negb_orb. reflexivity. }
     destruct (diff (diff u (nonconf_keys ps)) (conf_keys ps)); rewrite <- E4; reflexivity.
 Qed.
 
@@ -371,18 +371,18 @@ Proof.
   - rewrite orb_true_r || idtac.
     assert (E : forallb (fun kp => mem (fst kp) u || p_conf (snd kp)) ps = forallb (fun kp => p_conf (snd kp) || mem (fst kp) u) ps).
     { apply forallb_ext_in. intros; apply orb_comm. }
-    rewrite E. destruct (forallb _ ps); reflexivity.
+    rewrite E. clear E. rewrite andb_true_r.
+    destruct (forallb (fun kp : key * prop => p_conf (snd kp) || mem (fst kp) u) ps); reflexivity.
   - assert (E : forallb (fun kp => mem (fst kp) u || false) ps = forallb (fun kp => mem (fst kp) u) ps).
     { apply forallb_ext_in. intros; apply orb_false_r. }
-    rewrite E.
-    destruct (forallb (fun kp => mem (fst kp) u) ps) eqn:F.
+    rewrite E. clear E.
+    destruct (forallb (fun kp : key * prop => mem (fst kp) u) ps) eqn:F.
     + assert (forallb (fun kp => p_conf (snd kp) || mem (fst kp) u) ps = true) as ->.
       { clear -F. induction ps; simpl in *; [reflexivity|]. apply andb_true_iff in F. destruct F as [-> F].
         rewrite orb_true_r. auto. }
       simpl. rewrite !length_zero. rewrite diff_nil_forallb.
       destruct u as [|x u']; [reflexivity|].
-      simpl negb at 1. cbv iota. simpl andb at 1.
-      destruct (forallb (fun x0 => mem x0 (map fst ps)) (x :: u')); reflexivity.
+      simpl. destruct (mem x (map fst ps) && forallb (fun x0 : key => mem x0 (map fst ps)) u'); reflexivity.
     + rewrite andb_false_r. reflexivity.
 Qed.
 
